@@ -16,6 +16,8 @@ oracle_c07 — line protocol (numbers decimal, signed 64-bit):
   `warm`               runs the rest of the package's API (must not touch the codec's state)      → `ok`
   `rtpar <id> <g> <k>` round trip of id, id+1, … from g goroutines × k                           → `ok` | `pre-2000`
   `cnbatch <id>+`      CnStyle of every id first, then FromChStyle of every text                  → `ok` | `bad@<i>` | `pre-2000`
+  `tzrt <zone> <id>`   the same round trip in a child process started with TZ=<zone> (the codec's zone is fixed: the
+                       host's zone must not matter)                                                → as `rt`
   `cmp <a> <b>`        order of (timestamp, remaining bits) pairs                       → `-1` | `0` | `1`
 `pre-2000`: the instant is outside the fixed-offset part of the zone the calendar models.
 The accessor configuration is the one regenerated from the source (`Nv.Gen.C07.cfg`).
@@ -50,6 +52,26 @@ def ms2000 : Int := 946684800000
 
 def show3 (f : BitVec 64 × BitVec 64 × BitVec 64) : String := s!"{showId f.1} {showId f.2.1} {showId f.2.2}"
 def show2 (f : BitVec 64 × BitVec 64) : String := s!"{showId f.1} {showId f.2}"
+
+/-- zone names the runner accepts: `[A-Za-z_]+(/[A-Za-z_]+)?` -/
+def isZone (z : String) : Bool :=
+  let okPart (p : String) : Bool := !p.isEmpty && p.toList.all (fun c => c.isAlpha || c == '_')
+  match z.splitOn "/" with
+  | [a] => okPart a
+  | [a, b] => okPart a && okPart b
+  | _ => false
+
+/-- `FromChStyle (CnStyle id)` as the `rt` / `tzrt` lines print it -/
+def rtLine (s : OState) (id : String) : OState × String :=
+  let c := Nv.Gen.C07.cfg
+  match parseI64 id with
+  | some id =>
+    if (cnMs s.nb s.epoch id).toInt < ms2000 then (s, "pre-2000") else
+    let v := cnStyle shanghai s.nb s.epoch id
+    match fromChStyle c shanghai s.nb s.epoch v with
+    | some id' => (s, s!"{String.ofList v} {showId id'}")
+    | none => (s, s!"{String.ofList v} err")
+  | none => (s, "bad-op")
 
 def step (s : OState) (line : String) : OState × String :=
   let c := Nv.Gen.C07.cfg
@@ -109,15 +131,8 @@ def step (s : OState) (line : String) : OState × String :=
     else match fromChStyle c shanghai s.nb s.epoch cs with
       | some id => (s, showId id)
       | none => (s, "err")
-  | ["rt", id] =>
-    match parseI64 id with
-    | some id =>
-      if (cnMs s.nb s.epoch id).toInt < ms2000 then (s, "pre-2000") else
-      let v := cnStyle shanghai s.nb s.epoch id
-      match fromChStyle c shanghai s.nb s.epoch v with
-      | some id' => (s, s!"{String.ofList v} {showId id'}")
-      | none => (s, s!"{String.ofList v} err")
-    | none => (s, "bad-op")
+  | ["tzrt", z, id] => if isZone z then rtLine s id else (s, "bad-op")
+  | ["rt", id] => rtLine s id
   | ["warm"] => (s, "ok")   -- the runner exercises the rest of the package (NewNode, NewMonoNode, Generate, IDParseEx): no effect on the codec
   | ["rtpar", id, g, k] =>
     -- FromChStyle(CnStyle(id+i)) from g goroutines × k ids each: pure functions, so the answer is that of `rt` for every id
